@@ -265,11 +265,14 @@ NewBox(box, nlims) ==
        ELSE LET r == <<ClampRenorm(nlims[k[j]], box[k[j]][1]), ClampRenorm(nlims[k[j]], box[k[j]][2])>>
             IN IF r = FullRange THEN <<>> ELSE r])
 NoConditions(box) == CondAxes(box) = {}
-RECURSIVE FvLoop(_, _, _, _)
-FvLoop(font, nlims, r, acc) ==      \* acc = [recs, applied, defsub, universal]
+RECURSIVE FvLoop(_, _, _, _, _)
+FvLoop(font, nlims, r, acc, ideal) ==      \* acc = [recs, applied, defsub, universal]
   IF r > Len(font.fvs) \/ acc.universal THEN acc
   ELSE LET box == font.fvs[r].box
-           keep == ShouldKeep(box, nlims)
+           (* the code keeps a record only if a condition remains (D-FV1); ideally every record
+              that can still be satisfied is kept, so that one without remaining conditions ends
+              the list as a universal record *)
+           keep == IF ideal THEN BoxMeets(box, nlims) ELSE ShouldKeep(box, nlims)
            nb == NewBox(box, nlims)
            uniq == \A q \in 1..Len(acc.recs) : acc.recs[q].box # nb
            applies == BoxAtDefault(box, nlims)
@@ -277,12 +280,15 @@ FvLoop(font, nlims, r, acc) ==      \* acc = [recs, applied, defsub, universal]
                     applied |-> acc.applied \/ applies,
                     defsub |-> IF applies /\ ~acc.applied THEN font.fvs[r].sub ELSE acc.defsub,
                     universal |-> keep /\ NoConditions(nb)]
-       IN FvLoop(font, nlims, r + 1, acc2)
-InstantiateFvs(font, nlims) ==
-  LET res == FvLoop(font, nlims, 1, [recs |-> <<>>, applied |-> FALSE, defsub |-> font.defsub, universal |-> FALSE])
+       IN FvLoop(font, nlims, r + 1, acc2, ideal)
+FvStart(font) == [recs |-> <<>>, applied |-> FALSE, defsub |-> font.defsub, universal |-> FALSE]
+InstantiateFvsWith(font, nlims, ideal) ==
+  LET res == FvLoop(font, nlims, 1, FvStart(font), ideal)
       catchall == [box |-> TLCEval([j \in 1..Len(NKept(nlims)) |-> <<>>]), sub |-> font.defsub]
   IN [fvs |-> IF res.applied /\ Len(res.recs) > 0 /\ ~res.universal THEN Append(res.recs, catchall) ELSE res.recs,
       defsub |-> res.defsub]
+InstantiateFvs(font, nlims) == InstantiateFvsWith(font, nlims, FALSE)        \* what the code does
+InstantiateFvsIdeal(font, nlims) == InstantiateFvsWith(font, nlims, TRUE)    \* without D-FV1
 (* D-FV1 can fire only if some record is satisfied on all of the new space without keeping a
    condition: all its conditions lie on pinned axes (or it has none) and are met there *)
 FvDeviation(fvs, nlims) ==
